@@ -132,8 +132,10 @@ impl Monitor for C07Mon {
         };
         stats.probe_if(
             "completion_for_other_or_unknown",
-            matches!(call.ev.first(), Some(Ev::PS(_)) | Some(Ev::BB(_)) | Some(Ev::TB(_)))
-                && (target.is_none() || m > 1),
+            matches!(
+                call.ev.first(),
+                Some(Ev::PS(_)) | Some(Ev::BB(_)) | Some(Ev::TB(_))
+            ) && (target.is_none() || m > 1),
         );
         // (stay id, state) of the last scheduling per machine
         let mut sched: Vec<Option<(u64, usize)>> = vec![None; m];
@@ -206,7 +208,11 @@ impl Monitor for C07Mon {
             let Some(r) = log.get(i) else { break };
             match r {
                 Rec::Deliver { mi, event } => {
-                    if Some(*mi) == target && *event == cev && completion_pending.is_none() && !in_span {
+                    if Some(*mi) == target
+                        && *event == cev
+                        && completion_pending.is_none()
+                        && !in_span
+                    {
                         // first delivery of the completion event to its machine
                         // (only once per single-event call)
                         let already = log[..i].iter().any(|x| {
@@ -348,6 +354,7 @@ impl FwProp for C07 {
             real_components: FW_REAL.to_vec(),
             stubbed_components: FW_STUB.to_vec(),
             totality: false,
+            cpu_limit_s: crate::sup::CASE_CPU_LIMIT_S,
             exhaustive: false,
         }
     }
@@ -413,12 +420,18 @@ fn check_update(
 ) -> Option<String> {
     let Some(c) = c else {
         return if new != old {
-            Some(format!("counter {which} changed from {old} to {new} without an update specification"))
+            Some(format!(
+                "counter {which} changed from {old} to {new} without an update specification"
+            ))
         } else {
             None
         };
     };
-    let v = if c.copy { Some(other_old) } else { const_value(c) };
+    let v = if c.copy {
+        Some(other_old)
+    } else {
+        const_value(c)
+    };
     let expect = |v: u64| match c.operation {
         Operation::Increment => old.saturating_add(v),
         Operation::Decrement => old.saturating_sub(v),
@@ -429,13 +442,23 @@ fn check_update(
     }
     match v {
         Some(v) => {
-            stats.probe_if("saturated_at_max", old.checked_add(v).is_none() && c.operation == Operation::Increment);
-            stats.probe_if("saturated_at_zero", old < v && c.operation == Operation::Decrement);
+            stats.probe_if(
+                "saturated_at_max",
+                old.checked_add(v).is_none() && c.operation == Operation::Increment,
+            );
+            stats.probe_if(
+                "saturated_at_zero",
+                old < v && c.operation == Operation::Decrement,
+            );
             if new != expect(v) {
                 return Some(format!(
                     "counter {which}: {:?} by {v}{} from {old} must give {} but gave {new}",
                     c.operation,
-                    if c.copy { " (copy of the other counter before the transition)" } else { "" },
+                    if c.copy {
+                        " (copy of the other counter before the transition)"
+                    } else {
+                        ""
+                    },
                     expect(v)
                 ));
             }
@@ -473,7 +496,12 @@ impl Monitor for C08Mon {
         let mut zero_machines = 0u64;
         for (i, r) in log.iter().enumerate() {
             match r {
-                Rec::Counters { mi, state, old, new } => {
+                Rec::Counters {
+                    mi,
+                    state,
+                    old,
+                    new,
+                } => {
                     if *mi >= m {
                         continue;
                     }
@@ -489,15 +517,24 @@ impl Monitor for C08Mon {
                     }
                     let st = &case.machines[*mi].states[*state];
                     if let Some(d) = check_update("A", &st.counter.0, old.0, old.1, new.0, stats) {
-                        return Some(("counter-arith".into(), format!("machine {mi} entering state {state}: {d}")));
+                        return Some((
+                            "counter-arith".into(),
+                            format!("machine {mi} entering state {state}: {d}"),
+                        ));
                     }
                     if let Some(d) = check_update("B", &st.counter.1, old.1, old.0, new.1, stats) {
-                        return Some(("counter-arith".into(), format!("machine {mi} entering state {state}: {d}")));
+                        return Some((
+                            "counter-arith".into(),
+                            format!("machine {mi} entering state {state}: {d}"),
+                        ));
                     }
                     self.cur[*mi] = *new;
                     // the update precedes the scheduling of the entered state's action
                     if i > 0 {
-                        if let Rec::Scheduled { mi: x, state: s, .. } = &log[i - 1] {
+                        if let Rec::Scheduled {
+                            mi: x, state: s, ..
+                        } = &log[i - 1]
+                        {
                             if x == mi && s == state {
                                 return Some((
                                     "scheduled-before-update".into(),
@@ -543,7 +580,10 @@ impl Monitor for C08Mon {
                         zero_machines += 1;
                     }
                 }
-                Rec::Deliver { mi, event: Event::CounterZero } => {
+                Rec::Deliver {
+                    mi,
+                    event: Event::CounterZero,
+                } => {
                     let ok = i > 0 && matches!(&log[i - 1], Rec::Counters { mi: x, .. } if x == mi);
                     if !ok {
                         return Some((
@@ -603,6 +643,7 @@ impl FwProp for C08 {
             real_components: FW_REAL.to_vec(),
             stubbed_components: FW_STUB.to_vec(),
             totality: false,
+            cpu_limit_s: crate::sup::CASE_CPU_LIMIT_S,
             exhaustive: false,
         }
     }
@@ -675,7 +716,10 @@ impl Monitor for C09Mon {
                     }
                     self.ended[*mi] = true;
                 }
-                Rec::Deliver { mi, event: Event::Signal } if *mi < m => {
+                Rec::Deliver {
+                    mi,
+                    event: Event::Signal,
+                } if *mi < m => {
                     if before_round {
                         return Some((
                             "signal-before-round".into(),
@@ -697,14 +741,20 @@ impl Monitor for C09Mon {
             return None;
         }
         self.rounds += 1;
-        stats.probe_if("same_machine_signalled_repeatedly", times.iter().any(|t| *t >= 2));
+        stats.probe_if(
+            "same_machine_signalled_repeatedly",
+            times.iter().any(|t| *t >= 2),
+        );
         stats.probe_if("several_signallers", signallers.len() >= 2);
         stats.probe_if("ended_machine_present", ended.iter().any(|e| *e));
         for mi in 0..m {
             if delivered[mi] > 1 {
                 return Some((
                     "signal-twice".into(),
-                    format!("machine {mi} received {} Signals in one call (signallers {signallers:?})", delivered[mi]),
+                    format!(
+                        "machine {mi} received {} Signals in one call (signallers {signallers:?})",
+                        delivered[mi]
+                    ),
                 ));
             }
         }
@@ -790,6 +840,7 @@ impl FwProp for C09 {
             real_components: FW_REAL.to_vec(),
             stubbed_components: FW_STUB.to_vec(),
             totality: false,
+            cpu_limit_s: crate::sup::CASE_CPU_LIMIT_S,
             exhaustive: false,
         }
     }
@@ -878,7 +929,8 @@ impl Monitor for C10Mon {
         // reach: did a neighbour do something interesting in the same call?
         let nb = out.log.iter().any(|r| match r {
             Rec::Deliver { mi, event } => {
-                *mi != self.target && (*event == Event::CounterZero || *event == Event::LimitReached)
+                *mi != self.target
+                    && (*event == Event::CounterZero || *event == Event::LimitReached)
             }
             Rec::Scheduled { mi, some, .. } => *mi != self.target && *some,
             _ => false,
@@ -887,19 +939,24 @@ impl Monitor for C10Mon {
             self.neighbour_activity += 1;
         }
         stats.probe_if("neighbour_counterzero_or_limit_or_action_same_call", nb);
-        stats.probe_if(
-            "neighbour_and_target_both_counterzero",
-            {
-                let mut t_cz = false;
-                let mut n_cz = false;
-                for r in &out.log {
-                    if let Rec::Deliver { mi, event: Event::CounterZero } = r {
-                        if *mi == self.target { t_cz = true } else { n_cz = true }
+        stats.probe_if("neighbour_and_target_both_counterzero", {
+            let mut t_cz = false;
+            let mut n_cz = false;
+            for r in &out.log {
+                if let Rec::Deliver {
+                    mi,
+                    event: Event::CounterZero,
+                } = r
+                {
+                    if *mi == self.target {
+                        t_cz = true
+                    } else {
+                        n_cz = true
                     }
                 }
-                t_cz && n_cz
-            },
-        );
+            }
+            t_cz && n_cz
+        });
         if mine != so.actions {
             return Some((
                 "interference".into(),
@@ -933,6 +990,7 @@ impl FwProp for C10 {
             real_components: FW_REAL.to_vec(),
             stubbed_components: FW_STUB.to_vec(),
             totality: false,
+            cpu_limit_s: crate::sup::CASE_CPU_LIMIT_S,
             exhaustive: false,
         }
     }
